@@ -305,4 +305,4 @@ package memfs
 //@ func (*MemFS).removeAll
 //@   ranges
 //@   requires parent != nil
-//@   loop 0 step[C05] called(child.delete)
+//@   loop 0 step[C05,C01] called(child.delete)
